@@ -161,6 +161,9 @@ func (ex *Exec) InvParts(db *SymDB, now *Term) []namedTerm {
 					tt.PrefixOf(tt.Concat(tt.Str("__notify:"), cb.c(r, "promise_id").v, tt.Str(":")), id)),
 				ex.validMesg(cb.c(r, "mesg").v),
 				tt.Eq(ex.mesgField(cb.c(r, "mesg").v, 1), cb.c(r, "root_promise_id").v),
+				// a resume callback never awaits its own root (CreateCallback refuses it): the completion transaction
+				// finishes the tasks rooted at the completed promise before it turns that promise's callbacks into tasks
+				tt.Implies(tt.PrefixOf(tt.Str("__resume:"), id), tt.Not(tt.Eq(cb.c(r, "promise_id").v, cb.c(r, "root_promise_id").v))),
 			)
 			cs = append(cs, tt.Implies(r.present, row))
 		}
